@@ -7,7 +7,7 @@
     - [sort_result] (src/util.rs);
     - [desc_to_lines] (src/util.rs) over the token list of a description node.
     Executable definitions only. *)
-From EV Require Export C37.ReaderModel.
+From EV Require Export C37.ReaderModel Gen.C37_Classes.
 Local Open Scope N_scope.
 
 (* ------------------------------------------------------------------ items *)
@@ -233,15 +233,15 @@ Inductive tkind := TDetail | TEol | TNormalStart | TContinue | TOther.
 Record tok := { t_kind : tkind; t_start : N; t_len : N }.
 
 Definition DASH : cp := 45.
-Definition is_ws (c : cp) : bool := (c =? 32) || (c =? 9).
+(** the character classes are TABLES regenerated from the source (Gen/C37_Classes.v, lib/c37_classes.py)
+    and compared exhaustively with the real predicates over all Unicode scalar values by the harness *)
+Definition in_table (tbl : list N) (c : cp) : bool := existsb (N.eqb c) tbl.
+(** [util::is_ws] *)
+Definition is_ws (c : cp) : bool := in_table is_ws_chars c.
 (** [char::is_ascii_whitespace]: space, \t, \n, \x0C, \r *)
-Definition is_ascii_whitespace (c : cp) : bool :=
-  (c =? 32) || (c =? 9) || (c =? 10) || (c =? 12) || (c =? 13).
+Definition is_ascii_whitespace (c : cp) : bool := in_table ascii_ws_chars c.
 (** [char::is_whitespace] (Unicode White_Space) *)
-Definition is_whitespace (c : cp) : bool :=
-  ((9 <=? c) && (c <=? 13)) || (c =? 32) || (c =? 133) || (c =? 160) || (c =? 5760)
-  || ((8192 <=? c) && (c <=? 8202)) || (c =? 8232) || (c =? 8233) || (c =? 8239)
-  || (c =? 8287) || (c =? 12288).
+Definition is_whitespace (c : cp) : bool := in_table unicode_ws_chars c.
 
 Definition all_dash (t : text) : bool := forallb (fun c => c =? DASH) t.
 (** [str::trim_end] *)
